@@ -15,7 +15,9 @@ impl<K: Eq, V> HashMap<K, V> {
         HashMap { items: Vec::new() }
     }
     pub fn with_capacity(n: usize) -> Self {
-        HashMap { items: Vec::with_capacity(n) }
+        HashMap {
+            items: Vec::with_capacity(n),
+        }
     }
     pub fn len(&self) -> usize {
         self.items.len()
@@ -209,7 +211,9 @@ impl<T: Eq> HashSet<T> {
         HashSet { items: Vec::new() }
     }
     pub fn with_capacity(n: usize) -> Self {
-        HashSet { items: Vec::with_capacity(n) }
+        HashSet {
+            items: Vec::with_capacity(n),
+        }
     }
     pub fn len(&self) -> usize {
         self.items.len()
@@ -390,7 +394,9 @@ impl<K, V> IntoIterator for IndexMap<K, V> {
     type Item = (K, V);
     type IntoIter = map::IntoIter<K, V>;
     fn into_iter(self) -> Self::IntoIter {
-        map::IntoIter { inner: self.items.into_iter() }
+        map::IntoIter {
+            inner: self.items.into_iter(),
+        }
     }
 }
 
